@@ -186,6 +186,17 @@ def install(I, B):
 
     reg("psum", psum)
 
+    def uf(I, st, name, *args):
+        """uninterpreted real-valued function of real arguments (an arbitrary correlation)"""
+        zs = []
+        for a in args:
+            z = z3val(as_arith(a))
+            zs.append(z3.ToReal(z) if z3.is_int(z) else z)
+        f = I.func("uf_" + name, *([z3.RealSort()] * (len(zs) + 1)))
+        return f(*zs)
+
+    reg("uf", uf)
+
     def to_real(I, st, x):
         x = as_arith(x)
         if is_z3(x) and z3.is_int(x):
